@@ -21,12 +21,12 @@ PID = "C05"
 CFG = {
     "quick": dict(
         MaxLen=5,
-        LeafNames={"n0", "n2", "nm1", "nh", "oo", "nan", "m", "km", "s", "kg", "newton", "hz", "kilo", "sym"},
+        LeafNames={"n0", "n2", "nm1", "nh", "oo", "nan", "m", "km", "s", "kg", "newton", "hz", "pkibi", "sym"},
         OpNames={"mul2", "add2", "add3", "pow", "abs", "min2", "max2", "exp", "atan2"}),
     "thorough": dict(
         MaxLen=5,
         LeafNames={"n0", "n1", "n2", "n3", "nm1", "nm2", "nh", "n4", "oo", "noo", "nan", "m", "km", "cm", "s", "minute",
-                   "kg", "gram", "newton", "hz", "joule", "rad", "kilo", "milli", "pkilo", "q2m", "q4m2", "q0", "qang",
+                   "kg", "gram", "newton", "hz", "joule", "rad", "kilo", "milli", "pkilo", "pkibi", "q2m", "q4m2", "q0", "qang",
                    "sym", "deriv"},
         OpNames={"mul2", "mul3", "add2", "add3", "pow", "abs", "min2", "max2", "exp", "atan2"}),
 }
